@@ -466,7 +466,7 @@ func containsLoc(ls []ast.DirectiveLocation, l ast.DirectiveLocation) bool {
 var c15ErrText = map[string]string{
 	"wrongLength": "wrong response length", "noRootQuery": "could not find the root query", "noTypeName": "could not find type's name",
 	"noUnionImpl": "could not find type definition for union implementation", "noIfaceImpl": "Could not find type definition for union implementation",
-	"noDirectiveName": "could not find directive's name",
+	"noDirectiveName": "could not find directive's name", "noOfType": "could not find the wrapped type of a type reference",
 }
 
 type c15Limiter struct{ n map[string]int }
@@ -565,15 +565,14 @@ func c15Check(ctx *Ctx, idx int, cs c15Case) {
 	}
 	switch {
 	case real.Outcome == "panic":
-		c := ""
-		if deep {
-			c = "typeref-depth-over-7" // the standard query cuts the ofType chain: a spec-shaped answer ends in a wrapper without ofType
-		} else if cs.Mutation == "truncate-oftype" {
-			c = "typeref-nil-oftype-panics"
-		}
-		failLimited(ctx, &c15Lim, hx.Failure{Kind: "property-fails", Class: c, Detail: "IntrospectRemoteSchemas crashes the process instead of returning a start-up error: " + real.Err, Case: cs, Index: idx})
+		// never a known finding: a malformed or cut-off answer is a start-up error (C15_malformed_typeref_is_error)
+		ctx.Rep.Fail(hx.Failure{Kind: "property-fails", Detail: "IntrospectRemoteSchemas crashes the process instead of returning a start-up error: " + real.Err, Case: cs, Index: idx})
 	case cs.Kind == "spec" && real.Outcome == "error":
-		ctx.Rep.Fail(hx.Failure{Kind: "property-fails", Detail: "a spec-shaped answer for a valid schema is refused: " + real.Err, Case: cs, Index: idx})
+		c := ""
+		if deep && strings.Contains(real.Err, c15ErrText["noOfType"]) {
+			c = "typeref-depth-over-7" // the standard query cuts the ofType chain after 7 levels: the schema is refused (reported, not altered)
+		}
+		failLimited(ctx, &c15Lim, hx.Failure{Kind: "property-fails", Class: c, Detail: "a spec-shaped answer for a valid schema is refused: " + real.Err, Case: cs, Index: idx})
 	case cs.Kind == "spec":
 		want, got := normSchemaJSON(sj), normSchemaJSON(real.Schema)
 		var diffs []jdiff
